@@ -64,6 +64,56 @@ def flattenable(cfg, slow=False):
     return out
 
 
+def windowed_parent_candidates(cfg):
+    """nested schedulers the sentence applies to, directly under a root that has a window, in trees with
+    no other window, no timeout, no forever or never-ending job, zero-time handlers and no critical job
+    that raises (known finding F11)"""
+    jobs = cfg["jobs"]
+    if not jobs[0].get("window") or jobs[0].get("timeout") is not None:
+        return []
+    if any(j["sched"] and i != 0 and (j["window"] or j["timeout"] is not None) for i, j in enumerate(jobs)):
+        return []
+    if any(j["forever"] for j in jobs[1:]):
+        return []
+    if any((not j["sched"]) and (j["dur"] is None or j["sdur"] != 0 or (j["crit"] and j["out"] == "exc")) for j in jobs):
+        return []
+    out = []
+    for m, j in enumerate(jobs):
+        if m and j["sched"] and j["parent"] == 0 and j["crit"]:
+            ks = [k for k in range(1, len(jobs)) if jobs[k]["parent"] == m]
+            if len(ks) >= 2 and not any(jobs[k]["sched"] for k in ks):
+                out.append(m)
+    return out
+
+
+def _run_flat_window(arg):
+    """pair (tree, tree with m dissolved) under a windowed root: [] if the timelines agree, else
+    [{'known': F11}, differences...] (any difference is in the class)"""
+    cfg, m = arg
+    from .robserve import run_config
+    c2, ren = flatten(cfg, m)
+    if c2 is None:
+        return None
+    t1, o1 = timeline(run_config(cfg)["log"], cfg)
+    t2, o2 = timeline(run_config(c2)["log"], c2)
+    diffs = []
+    for old, new in sorted(ren.items()):
+        if cfg["jobs"][old]["sched"]:
+            continue
+        a, b = t1.get(old), t2.get(new)
+        if (list(a) if a else None) != (list(b) if b else None):
+            diffs.append({"job": old, "job_in_flattened_graph": new, "nested_tree (start, end, how)": a,
+                          "flattened_graph (start, end, how)": b})
+    return ([{"known": F11_SIGNATURE}] + diffs) if diffs else []
+
+
+F11_SIGNATURE = "c10_nested_scheduler_holds_one_slot_of_a_windowed_parent"
+F11_TEXT = ("under a parent that has a window a nested scheduler holds ONE slot while all its own jobs run (C07: it counts as "
+            "one job of its parent and its window applies to its own jobs only), whereas in the flattened graph each of "
+            "those jobs needs a slot of the parent: witness root(jobs_window=1){m{a: 1 s, b: 1 s}}: a and b both run from 0 "
+            "to 1; flattened, the second one runs from 1 to 2")
+
+
 def flatten(cfg, m):
     """dissolve nested scheduler m into its parent; returns (cfg', map old id -> new id)"""
     jobs = cfg["jobs"]
@@ -290,6 +340,16 @@ class C10(RProp):
                 sl = flattenable(cfg, slow=True)
                 if sl:
                     slow_work.append((i, sl[0]))
+        win_work = [(i, windowed_parent_candidates(cfg)) for i, cfg in enumerate(cases)]
+        win_work = [(i, ms[0]) for i, ms in win_work if ms][:200]
+        if win_work:
+            outs = [_run_flat_window((cases[i], m)) for i, m in win_work]
+            for (i, m), d in zip(win_work, outs):
+                results[i]["tags"]["flattened_windowed_parent"] = 1
+                results[i]["traces"] = results[i].get("traces", 0) + 2
+                if d and results[i]["status"] == "ok":
+                    results[i].update(status="specfail", signature=d[0]["known"],
+                                      detail={"what": "known finding F11: " + F11_TEXT, "differences": d[1:7]})
         if slow_work:
             args = [(cases[i], m) for i, m in slow_work]
             if len(args) < 32:
@@ -338,7 +398,7 @@ class C10(RProp):
         return results
 
     def known_finding(self, case, res):
-        if res.get("signature") in (F9_SIGNATURE, F10_SIGNATURE) and res["status"] == "specfail":
+        if res.get("signature") in (F9_SIGNATURE, F10_SIGNATURE, F11_SIGNATURE) and res["status"] == "specfail":
             return core.listed_finding("C10", res["signature"])
         return None
 
